@@ -203,7 +203,18 @@ func (m *impl) step(t []string) string {
 		if !ok {
 			return "bad-op"
 		}
-		return statLine(m.fs.Stat(ctx, p))
+		fi, err := m.fs.Stat(ctx, p)
+		res := statLine(fi, err)
+		if err == nil {
+			// FileInfo.Name: the last element of the cleaned name ("/" stands for the root,
+			// whose native name is that of the temporary directory)
+			if slashClean(p) == "/" {
+				res += " /"
+			} else {
+				res += " " + fi.Name()
+			}
+		}
+		return res
 	case t[0] == "open" && len(t) == 4:
 		p, ok := pathTok(t[1])
 		acc, err := strconv.Atoi(t[2])
@@ -345,6 +356,11 @@ func classify(t []string, m *impl, preKind func(string) string) string {
 		case k == "file" && t[2] == "0" && strings.Contains(fl, "t"):
 			return "open-rdonly-trunc"
 		}
+	case "seek":
+		// offsets beyond the native filesystem's maximum file size (filesystem dependent)
+		if off, _ := strconv.ParseInt(t[2], 10, 64); off > 1<<43 {
+			return "allowed:offset-beyond-native-limit"
+		}
 	case "rename":
 		b, _ := pathTok(t[2])
 		if preKind(b) != "" {
@@ -415,6 +431,10 @@ func exec(ops []string, o *vu.Out) {
 		}
 		res := vu.Catch(func() string { return m.step(t) })
 		o.Op(op, res)
+		if res == "panic" {
+			// no history of FileSystem / File calls may crash the filesystem
+			o.Fail("", fmt.Sprintf("op %q panicked", op))
+		}
 		if strings.HasPrefix(res, "ok") {
 			o.Stat("okop:" + t[0])
 		}
